@@ -37,6 +37,9 @@ DEPENDS = {
 }
 
 
+ANCHOR_MODULES: dict[str, list[str]] = {}   # only used when a property's own analysis stopped before naming any function
+
+
 def closure(pid: str) -> list[str]:
     out: list[str] = []
     todo = list(DEPENDS.get(pid, []))
@@ -68,8 +71,13 @@ def main() -> int:
         mod = importlib.import_module(f"sa.props.{pid.lower()}")
         repo = Repo()
         ck = Check(pid, ns.tier)
-        mod.run(ck, repo)
         undecided = []
+        try:
+            mod.run(ck, repo)
+        except AnalysisError as err:
+            # the property's own analysis cannot decide this tree; the inherited layers and the hygiene lints still run:
+            # a violation they find is reported (exit 1), otherwise the property stays undecided (exit 2)
+            undecided.append(f"{pid}: {err}")
         for dep in closure(pid):
             from sa.report import SubCheck
             try:
@@ -77,13 +85,18 @@ def main() -> int:
                 ck.extra.setdefault("inherited_layers", []).append(dep)
             except AnalysisError as err:
                 undecided.append(f"{dep}: {err}")
+        # Python-semantics hygiene on the functions the rules above went through (sa/hygiene.py)
+        from sa import hygiene
+        if not ck.analysed and undecided:
+            ck.analysed_fn(*[q for q in repo.functions if any(q.startswith(a) for a in ANCHOR_MODULES.get(pid, []))])
+        hygiene.run(ck, repo)
         code = ck.finish()
         if undecided and code == 0:
-            # an inherited layer could not be decided and nothing else was found: the property is not decided
-            print(f"ANALYSIS-ERROR property={pid}: inherited layer undecided - " + " | ".join(undecided))
+            own = undecided[0].startswith(pid + ":")
+            print(f"ANALYSIS-ERROR property={pid}: " + ("" if own else "inherited layer undecided - ") + " | ".join(u if not u.startswith(pid + ": ") else u[len(pid) + 2:] for u in undecided))
             return 2
         for u in undecided:
-            print(f"NOTE property={pid}: inherited layer undecided - {u}")
+            print(f"NOTE property={pid}: undecided - {u}")
         return code
     except AnalysisError as err:
         print(f"ANALYSIS-ERROR property={pid}: {err}")
